@@ -47,13 +47,13 @@ func VerifNewUpTrack(remote *webrtc.TrackRemote, receiver *webrtc.RTPReceiver, p
 	return &VerifUp{track}
 }
 
-func (u *VerifUp) UpTrack() conn.UpTrack       { return u.T }
-func (u *VerifUp) Cache() *packetcache.Cache   { return u.T.cache }
-func (u *VerifUp) ReadLoop()                   { readLoop(u.T) }
-func (u *VerifUp) RTCPListener()               { rtcpUpListener(u.T) }
-func (u *VerifUp) NackWriter()                 { nackWriter(u.T) }
-func (u *VerifUp) SendUpRTCP() error           { return sendUpRTCP(u.T.conn) }
-func (u *VerifUp) SendNACKs(s []uint16) error  { return u.T.sendNACKs(s) }
+func (u *VerifUp) UpTrack() conn.UpTrack      { return u.T }
+func (u *VerifUp) Cache() *packetcache.Cache  { return u.T.cache }
+func (u *VerifUp) ReadLoop()                  { readLoop(u.T) }
+func (u *VerifUp) RTCPListener()              { rtcpUpListener(u.T) }
+func (u *VerifUp) NackWriter()                { nackWriter(u.T) }
+func (u *VerifUp) SendUpRTCP() error          { return sendUpRTCP(u.T.conn) }
+func (u *VerifUp) SendNACKs(s []uint16) error { return u.T.sendNACKs(s) }
 func (u *VerifUp) BufferedNACKs() []uint16 {
 	u.T.mu.Lock()
 	defer u.T.mu.Unlock()
